@@ -68,11 +68,24 @@ TreeOK(v2, v3) ==
   /\ \A L \in DOMAIN v2 : LevelOK(L = "top", v2[L], v3[L])
   /\ TemplateChosen(v3["top"])
 
+\* where the v3 file must be: at the path --outfile denotes (default ".mockery_v3.yml"), a relative one taken
+\* relative to the working directory -- wherever the v2 file was found.  Location ids are concretised by the
+\* harness ("cwd:<relative path>", "abs:<file in a directory outside>").
+OutLocId(lay) ==
+  CASE lay.out = "default"  -> "cwd:.mockery_v3.yml"
+    [] lay.out = "rel"      -> "cwd:out/v3.yml"
+    [] lay.out = "samebase" -> "cwd:<input base name>"
+    [] lay.out = "abs"      -> "abs:abs-out.yml"
+
+\* changed: the location ids of every file created, modified or removed by the command ("input" = the v2
+\* file).  Exactly the requested output, nothing else -- in particular never the input.
+FilesOK(lay, changed) == changed = {OutLocId(lay)}
+
 \* what mockery's own loader reports for the file (after merging the hierarchy): a value set at a level is
 \* the value in effect at that level.  (`_anchors` maps are merged key-wise down the hierarchy by the loader
 \* and unused otherwise, so the loaded map is not compared; the written file is, by TreeOK.)
 LoadedOK(v2, eff) ==
   /\ DOMAIN eff = DOMAIN v2
   /\ \A L \in DOMAIN v2 : LET req == Required(v2[L]) IN
-       \A p \in DOMAIN req : p # "_anchors" => p \in DOMAIN eff[L] /\ eff[L][p] = req[p]
+       \A p \in DOMAIN req : p # "_anchors" /\ ~(L = "top" /\ p = "config") => p \in DOMAIN eff[L] /\ eff[L][p] = req[p]
 =============================================================================
